@@ -502,7 +502,4 @@ partial def loop (h : IO.FS.Stream) (out : IO.FS.Stream) (st : St) : IO Unit := 
 
 end Ampverif.Model.C17.Driver
 
-def main : IO Unit := do
-  let stdin ← IO.getStdin
-  let stdout ← IO.getStdout
-  Ampverif.Model.C17.Driver.loop stdin stdout {}
+-- `main` (line-protocol entry point) lives in Ampverif/Drivers/C17Rename.lean
